@@ -97,12 +97,21 @@ def oracle_order(args):
     scattered ratios and is not evidence either way)"""
     spec = dict(args)
     res = []
+    # the initial condition is defined ONCE, as a user doing a convergence study would, and handed to every construction
+    _m, rho_shared, _r = _model(spec)
+    x_shared, p_shared = np.array(spec["x0"], dtype=np.float64), np.array(spec["p0"], dtype=np.float64)
+    keep = (np.array(x_shared), np.array(p_shared), np.array(rho_shared))
+    bad = []
     for k in range(4):
-        t = _traj(spec, spec["dt"] / 2 ** k, spec["steps"] * 2 ** k)
+        t = _traj(spec, spec["dt"] / 2 ** k, spec["steps"] * 2 ** k, x0=x_shared, p0=p_shared, rho0=rho_shared)
         t.simulate()
         res.append((np.array(t.position), np.array(t.velocity * t.mass), np.array(t.rho)))
+        if not (np.array_equal(x_shared, keep[0]) and np.array_equal(p_shared, keep[1]) and np.array_equal(rho_shared, keep[2])):
+            bad.append("the run at dt/%d modified the caller's initial-condition arrays (x0, p0 or rho0): later runs start elsewhere" % 2 ** k)
+            break
     out = {}
-    bad = []
+    if bad:
+        return False, {"problems": bad}, {"ratio": "about 4 (>= 3)"}, bad[0]
     for name, idx in (("x", 0), ("p", 1), ("rho", 2)):
         e = [float(np.max(np.abs(res[k][idx] - res[k + 1][idx]))) for k in range(3)]
         sc = float(np.max(np.abs(res[3][idx]))) + 1e-300
